@@ -30,6 +30,7 @@ func round12(c *Ctx, r *Report, p string) {
 	case "C17":
 		iterationsOnlyHashed(c, r, "C17.R4.iterations-only-hashed")
 	case "C05":
+		typeSpellingsAgree(c, r, "C05.R3.type-spellings-agree")
 		signKeptInSplitNumber(c, r, "C05.R3.sign-kept-in-split-number")
 		formatsInUTC(c, r, "C05.R3.formats-in-utc")
 	case "C11":
